@@ -73,4 +73,7 @@ pub fn run(rc: &mut RunCtx) {
         rc.require_label("roundtrip", l, 10_000);
     }
     rc.require_label("roundtrip", "unknown_nested", 5_000);
+    if !rc.quick() {
+        rc.run_fuzz(Some(STAGES[0]), 320);
+    }
 }
